@@ -71,7 +71,7 @@ def intfloatnorm(x):
         return {k: intfloatnorm(v) for k, v in x.items()}
     if isinstance(x, (list, tuple)):
         return [intfloatnorm(v) for v in x]
-    if isinstance(x, float) and x == x and abs(x) != float("inf") and x == int(x) and abs(x) <= 2 ** 53:
+    if isinstance(x, float) and x == x and abs(x) != float("inf") and x == int(x) and abs(x) < 1e21:   # JS prints 1e21 and above in exponent form
         return int(x)
     return x
 
